@@ -111,15 +111,29 @@ def step (sv : Server) (j : Json) : Server × Json :=
         | _ => Json.mkObj [("bad", "op")])
   | none => (sv, Json.mkObj [("bad", "op")])
 
+def parseWOp (j : Json) : Option WOp :=
+  let ns := (getChars j "ns").getD []
+  match getStr j "op" with
+  | some "create" => some (.create ns (parseInst (getField j "inst")))
+  | some "modify" => some (.modify ns ((parsePath (getField j "path")).getD default) ((getArr j "chg").map parseIProp))
+  | some "delete" => some (.delete ns ((parsePath (getField j "path")).getD default))
+  | _ => none
+
 def handle (j : Json) : Json :=
   let sv0 : Server := { host := (getChars j "host").getD [], repo := (getArr j "repo").map parseNs }
   let (sv, outs) := (getArr j "reqs").foldl
     (fun (acc : Server × List Json) r => let (s, o) := step acc.1 r; (s, o :: acc.2)) (sv0, [])
-  Json.mkObj [("outs", Json.arr outs.reverse.toArray),
+  -- for pure write histories: the shadow-copy discipline before / after and the request conditions
+  let wstat : List (String × Json) :=
+    match (getArr j "reqs").mapM parseWOp with
+    | some ops => if ops.isEmpty then [] else
+        [("winv0", disciplineB sv0.repo), ("histok", histOkB sv0 ops), ("winv", disciplineB (runW sv0 ops).repo)]
+    | none => []
+  Json.mkObj (wstat ++ [("outs", Json.arr outs.reverse.toArray),
               ("repo", Json.arr (sv.repo.map (fun S => Json.mkObj [("name", str S.name),
                 ("paths", Json.arr (S.insts.map (fun i => pathToJson i.path)).toArray),
                 ("insts", Json.arr (S.insts.map (fun i => Json.mkObj [("path", pathToJson i.path), ("cls", str i.cls),
                   ("refs", Json.arr ((i.props.filter (·.isRef)).map (fun p =>
-                    Json.arr #[str p.name, optToJson pathToJson p.value])).toArray)])).toArray)])).toArray)]
+                    Json.arr #[str p.name, optToJson pathToJson p.value])).toArray)])).toArray)])).toArray)])
 
 def main : IO Unit := runDriver handle
